@@ -77,6 +77,21 @@ CHECKS.update({
                   'six kinds, so every clause is exercised on both sides; accessors are compared with the members (numbers by literal).'),
 })
 
+CHECKS.update({
+ 'C16': dict(engine='text', ref='6/C16', technique='TLA+ transcription of the scanner automaton (Scanner.tla) checked by TLC against a declarative RFC 8259 '
+             'grammar (JsonText.tla) on every word of a bounded language; every word replayed through the codec and all public entry points',
+             text='Language equality of the scanner PDA and the RFC grammar is model-checked for all ~6*10^4 (quick) / ~1.2*10^6 (thorough) words '
+                  'whose proper prefixes are viable (9.9*10^6 words to length 8 over a 10-symbol alphabet were checked once, see DESIGN.md); each '
+                  'word, bare and wrapped in white space, is executed on 19 entry points and accept/reject compared with the specification verdict.'),
+ 'C17': dict(engine='text', ref='6/C17', technique='byte-exact comparison of the codec\'s Compact/Indent/HTMLEscape/MarshalEscaped with the TLA+ transducers and '
+             'Enc, on TLC-enumerated words and values; plus a differential comparison with encoding/json',
+             text='TLC checks on the specification that the transducers accept exactly the valid texts and keep the value, and that Parse(Enc(v)) = v; '
+                  'the real codec must then produce exactly the specification bytes for every word / value, report keys in document order, and '
+                  'agree with encoding/json on the same inputs. Struct types, tags and token streams are outside the specification and only '
+                  'covered differentially (stated in evidence).',
+             note=TB + '; the differential part trusts the standard library of the installed Go release'),
+})
+
 NA = {}
 
 
@@ -112,6 +127,8 @@ def main():
              'kind_free_text': 'TLA+ definitions of RFC 7396 apply/create/compose with their laws, universe enumerated by TLC and replayed'},
             {'name': 'equal', 'path': 'spec/Equal.tla spec/MCEqual.tla', 'serves_properties': ['C06'], 'kind_free_text': 'structural equality as a TLA+ relation'},
             {'name': 'decode', 'path': 'spec/DecodePatch.tla spec/MCDecode.tla', 'serves_properties': ['C11'], 'kind_free_text': 'acceptance predicate of RFC 6902 patch documents and its mutation table'},
+            {'name': 'text', 'path': 'spec/Scanner.tla spec/JsonText.tla spec/JsonEnc.tla spec/MCScanner.tla spec/MCCodec.tla', 'serves_properties': ['C16', 'C17', 'C04', 'C06'],
+             'kind_free_text': 'scanner push-down automaton and its transducers transcribed to TLA+, declarative grammar, encoder spelling'},
             {'name': 'patch', 'path': 'spec/Patch6902.tla spec/MCPatch.tla harness/cmd/replay', 'serves_properties':
                 ['C01', 'C05', 'C08', 'C12', 'C13', 'C14', 'C15'],
              'kind_free_text': 'TLA+ reference machine for RFC 6902 application, TLC-enumerated, transitions replayed into the library'},
